@@ -69,10 +69,11 @@ def run(ctx):
     # DateTime incl. zones with skipped midnights
     fails = []
     n = 0
-    keys = ["UTC", "Europe/Paris", "America/Sao_Paulo", "America/Havana", "Asia/Beirut", "Pacific/Apia", None, 19800]
+    keys = ["UTC", "Europe/Paris", "America/Sao_Paulo", "America/Havana", "Asia/Beirut", "Pacific/Apia", None, "+05:30"]
     N = 1500 if ctx.tier == "quick" else 60000
     for _ in range(N):
         tz = rng.choice(keys)
+        tz = pendulum.timezone(19800) if tz == "+05:30" else tz
         y = rng.choice((2011, 2012, 2017, 2018, 2019, 2020, 2024))
         m = rng.randrange(1, 13)
         day = rng.randrange(1, calendar.monthrange(y, m)[1] + 1)
@@ -100,6 +101,9 @@ def run(ctx):
                 ok = ok and k > len(ref)
         except guard.Hang:
             fails.append({"x": x.isoformat(), "zone": str(tz), "weekday": wd, "hang": True, "whole_day_skip_within_a_week": _day_skip_near(x)})
+            continue
+        except Exception as e:  # noqa: BLE001 - any other exception is itself a failure of the property
+            fails.append({"x": x.isoformat(), "zone": str(tz), "weekday": wd, "unit": unit, "error": f"{type(e).__name__}: {e}"})
             continue
         if not ok:
             skipped_midnight = False
